@@ -40,8 +40,8 @@ class Check(FormulaCheck):
         shapes = [(r, c) for r in range(1, maxdim + 1) for c in range(1, maxdim + 1)]
         for i in range(16):
             specs.append({'campaign': 'index', 'seed': seed, 'i': i, 'shapes': shapes[i::16], 'oned': [n for n in range(1, 9)][i::16] if i < 8 else []})
-            specs.append({'campaign': 'match', 'seed': seed, 'i': i, 'n': 400 if q else 20000})
-            specs.append({'campaign': 'choose', 'seed': seed, 'i': i, 'n': 150 if q else 6000})
+            specs.append({'campaign': 'match', 'seed': seed, 'i': i, 'n': 1500 if q else 20000})
+            specs.append({'campaign': 'choose', 'seed': seed, 'i': i, 'n': 500 if q else 6000})
         return specs
 
     def prepare(self, spec, rec):
